@@ -57,6 +57,8 @@ def mod_parse(e):
     if msg.startswith("E:"):
         parts = msg.split(".")[0].split(":")
         return ["E", int(parts[1]), int(parts[2])]
+    if "cannot [de]serialize" in msg:
+        return ["U"]
     return ["X", type(e).__name__, msg[:80]]
 
 
